@@ -30,6 +30,15 @@ FORMATS = ("memory", "weights_h5", "weights_v3", "weights_tf", "full_h5",
            "keras", "savedmodel")
 
 
+def _takes_custom_objects(cls):
+  """True if cls.from_config declares a custom_objects parameter."""
+  import inspect
+  try:
+    return "custom_objects" in inspect.signature(cls.from_config).parameters
+  except (TypeError, ValueError):
+    return False
+
+
 def json_norm(o):
   """JSON-normalises a config (tuples become lists, numpy becomes plain)."""
 
@@ -1235,10 +1244,24 @@ class ModelWorld(engine.World):
         for sub in (fc.reflects_trust_in or []) + (fc.dominates or []) + (
             fc.regularizer_configs or []):
           out.append(("nested_config", sub, "config", None))
+    if (mc is not None and
+        type(self.model).__module__.startswith("tensorflow_lattice")):
+      # The premade model class itself (get_config -> from_config, twice from
+      # the same dictionary); its weights/outputs are compared at restores.
+      out.append(("model:" + type(self.model).__name__, self.model, "layer",
+                  None))
     for layer in self._all_layers():
       if not type(layer).__module__.startswith("tensorflow_lattice"):
         continue
       out.append(("layer:" + layer.name, layer, "layer", None))
+      if (isinstance(layer, self.tfl.layers.KroneckerFactoredLattice) and
+          getattr(layer, "bias", None) is not None):
+        # build() creates this initializer inline; it is a public class with
+        # get_config, so it is rebuilt with the layer's own arguments.
+        out.append((layer.name + ".bias_initializer(inline)",
+                    self.tfl.kronecker_factored_lattice_layer.BiasInitializer(
+                        layer.output_min, layer.output_max),
+                    "initializer", (layer.bias, None)))
       for attr in ("kernel_initializer", "bias_initializer",
                    "scale_initializer"):
         init = getattr(layer, attr, None)
@@ -1276,8 +1299,14 @@ class ModelWorld(engine.World):
           c1 = obj.get_config()
           # The same config dictionary must be usable more than once.
           given = copy.copy(c1) if kind != "config" else json_norm(c1)
-          for _ in range(2):
+          for attempt in range(2):
             if kind == "config":
+              obj2 = cls.from_config(given, custom_objects=co)
+            elif kind == "layer" and attempt == 1 and _takes_custom_objects(
+                cls):
+              # Second rebuild: the tfl registry handed over through the
+              # from_config parameter made for it, no enclosing scope.
+              ctx.count("reach:from_config_custom_objects_arg")
               obj2 = cls.from_config(given, custom_objects=co)
             elif kind == "layer":
               with self.keras.utils.custom_object_scope(co):
@@ -1291,6 +1320,8 @@ class ModelWorld(engine.World):
             {"object": label, "class": cls.__name__, "text": e.exc_text}))
         continue
       ctx.count("objects_round_tripped")
+      ctx.count("roundtrip_class:%s.%s" % (
+          cls.__module__.rsplit(".", 1)[-1], cls.__name__))
       diffs = config_diff(json_norm(c1), json_norm(c2))
       if diffs:
         out.append(engine.Violation("object_config_drift", {
